@@ -19,7 +19,9 @@ RULE = ("one evaluation = one real call of a commensurability-requiring operatio
         "refusal is vacuous and only noted).  distinct = (operation/form, kind+shape of each operand, dtype) cells of the "
         "kind matrix plus (operation/form, unit of A, unit of B) cells of the dimension-pair sweep (default-registry units, offset scales, "
         "random compound units, and user symbols of custom registries whose dimension differs between registries or was redefined, judged "
-        "after the identically spelled commensurable operation ran); commensurable controls, "
+        "after the identically spelled commensurable operation ran; and pairs of the SAME spelling whose Unit objects were taken on either side "
+        "of an edit of their registry that changed the symbol's dimension, or from two registries defining the symbol differently: (kind of edit, "
+        "unit form, derivation of the old operand, order) cells of the snapshot-unit sweep); commensurable controls, "
         "documented exceptions and observed-only calls are counted separately and are not evaluations")
 ASSUMPTIONS = (
     "trusted base: vf/ref/defs.py dimension vectors + vf/ref/uexpr.py evaluator for every unit string used; the passive tap reads "
@@ -52,6 +54,16 @@ ASSUMPTIONS = (
     "user-defined symbols of a UnitRegistry have the dimension their definer passed to registry.add (reference vector written next to the "
     "unyt.dimensions name in REG_DIMS); string targets such as .to('m') are resolved by unyt in the source's registry, so the cross-registry "
     "scenario (tick of registry A against tick of registry B) is driven through Unit objects only",
+    "a Unit object is a snapshot: a quantity labelled before an edit of its registry (modify by a quantity of another dimension, remove+add, add over "
+    "the existing symbol; at the same or another scale) keeps the dimension its symbol had when the label was taken, also in compound units and in "
+    "operands derived from it (arithmetic, views); its reference vector is what the definer passed at that time.  Such a pair, and one symbol read in "
+    "two registries, is judged exactly like a pair of differently spelled units.  A string target (.to('blip')) is read by unyt in the source's "
+    "registry at call time, so after an in-place edit it denotes the new definition: string routes are driven old->new in one registry only, "
+    "Unit-object and quantity targets in every order",
+    "pickle / deepcopy of a pre-edit quantity re-read the spelling in the copied registry contents (the copy carries the NEW dimension): that is the "
+    "serialisation property's subject and is not driven as a snapshot operand here",
+    "pairs of quantities spelled alike get the operand class '<class>/same-spelling' in their mechanism keys (driver: contexts built that way; passive tap: "
+    "equal unit expressions with different dimension labels), because a dimension test replaced by a comparison of spellings fails only there",
     "mechanism keys carry an operand class (dimensional / dimensionless-quantity (scale 1) / scaled-dimensionless-quantity (percent...) / bare-number / "
     "bare-array / quantity-list / dimensionless-quantity-list); handlers that forward a keyword operand to NumPy without looking at it "
     "(pad, diff, ediff1d, interp left/right, histogram bins/range) use one class 'quantity' for every kind of quantity; divmod, "
@@ -117,7 +129,21 @@ def opclass_of_dims(d0, d1, u0=None, u1=None):
             except Exception:
                 scaled = False
             return "scaled-dimensionless-quantity" if scaled else "dimensionless-quantity"
+    try:
+        if u0 is not None and u1 is not None and u0.expr == u1.expr:
+            return "dimensional" + SAMESPELL
+    except Exception:
+        pass
     return "dimensional"
+
+
+SAMESPELL = "/same-spelling"
+
+
+def samespell_class(ctx, cls):
+    """operand class of a pair of quantities whose units are spelled alike and nevertheless differ in dimension (snapshot units of an edited
+    registry, one symbol in two registries): the dimension test cannot be replaced by a comparison of spellings for them"""
+    return cls + SAMESPELL if ctx.samespell and cls in ("dimensional", "quantity-list") else cls
 
 
 def opclass(c1, c2):
@@ -255,6 +281,9 @@ def batches(tier, seed):
         nrand = 64
     for i in range(nrand):
         b.append((f"random/{i}", ("random", {"seed": seed, "tier": tier})))
+    # enumerated (edit x unit form x operand derivation x both orders); the two dimensions and the scales are drawn per batch from the seed
+    for i, cc in enumerate(chunks(stale_batches(tier), 12 if tier == "quick" else 48)):
+        b.append((f"stale/{i}", ("stale", {"cases": cc, "seed": seed, "tier": tier})))
     return b
 
 
@@ -313,8 +342,19 @@ class Ctx:
         self.em = frozenset((self.d["same"], self.d["diff"])) in EM_PAIRS
         return self
 
+    samespell = False   # A and B are the same spelling (one user symbol whose definition differs between the two Unit objects)
+    def celltag(self):
+        """snapshot-unit contexts are their own coverage cells (history of the pair), the others share the kind-matrix cells"""
+        return (self.cellkey,) if self.samespell else ()
+
+    cellkey = None
+
+    mkq = None   # optional {kind: fn(values) -> quantity}: operands of that kind come out of a life history instead of a constructor call
+
     def q(self, kind, v):
         un = self.unyt
+        if self.mkq is not None and kind in self.mkq:
+            return self.mkq[kind](v)
         if np.ndim(v) == 0:
             return un.unyt_quantity(v, self.U[kind])
         return un.unyt_array(v, self.U[kind])
@@ -374,7 +414,7 @@ def mk(ctx, kind, shp, role, dt):
         v = vals(role, "1", dt)
         un = ctx.unyt
         ks = {"qlist": ("same",) * 3, "qlist-diff": ("diff",) * 3, "qlist-mixed": ("same", "diff", "same"), "qlist-dl": ("dimless",) * 3}[kind]
-        o = [un.unyt_quantity(np.array(x), ctx.U[k]) for x, k in zip(v, ks)]
+        o = [ctx.q(k, np.array(x)) for x, k in zip(v, ks)]
         ds = {ctx.d[k] for k in ks}
         d = ds.pop() if len(ds) == 1 else None
         return o, d, ("qld" if d == ZERO else "ql")
@@ -460,6 +500,7 @@ class Judge:
         self.unyt = unyt
         self.twin = twin_of(unyt)
         self.twin_cache = {}
+        self.scopes = ()     # names of the history sub-monitors the current cases belong to (each judged case is counted under each)
 
     def run(self, thunk):
         try:
@@ -490,6 +531,7 @@ class Judge:
             return
         if ctx.em and mode in ("must-raise", "eq") and cls in ("dimensional", "quantity-list"):
             mode, free_reason = "free", "documented-EM-conversion"
+        cls = samespell_class(ctx, cls)
         if mode in ("must-raise", "eq") and not self.alive(twin_key, build):
             rec.note(f"vacuous:{op}/{form}:{self.twin_cache[twin_key][1]}")
             rec.count("vacuous-skipped")
@@ -510,6 +552,8 @@ class Judge:
             rec.count(f"free:{sub}")
             return
         rec.count(f"judged:{sub}")
+        for sc in self.scopes:
+            rec.count("judged-scope:" + sc)
         if e is not None:
             rec.count(f"exc:{type(e).__name__}")
             after = [vsnap(o) for o in operands]
@@ -533,6 +577,8 @@ class Judge:
             good = a.dtype.kind in "biufc" and not bool(np.any(a.astype(bool) != want))
             if good:
                 rec.count("eq-constant-answer")
+                for sc in self.scopes:
+                    rec.count("eq-constant-scope:" + sc)
                 rec.ok((op, form) + tuple(cell))
                 rec.reach(f"{op}/{form}")
             else:
@@ -642,6 +688,9 @@ def drive_ufmatrix(J, payload):
     ctxs = [as_ctx(un, c) for c in payload["ctxs"]]
     kinds = kinds_for(tier)
     shape_pairs = SHAPE_PAIRS_Q if tier == "quick" else SHAPE_PAIRS_T
+    shape_pairs = [tuple(x) for x in payload.get("shape_pairs", shape_pairs)]
+    kpairs = payload.get("kpairs")      # optional restriction of the ordered operand-kind pairs
+    kpairs = None if kpairs is None else {tuple(x) for x in kpairs}
     probe = ctxs[0]
     bshapes = {(a, b): np.broadcast_shapes(SHAPES[a], SHAPES[b]) for a in SHAPES for b in SHAPES}
     for name in payload["ufuncs"]:
@@ -658,6 +707,8 @@ def drive_ufmatrix(J, payload):
                             continue
                         if not (i1[2] or i2[2]):
                             continue     # no unyt object among the operands: the call never reaches unyt
+                        if kpairs is not None and (k1, k2) not in kpairs:
+                            continue
                         # a zero-filled quantity meeting an operand that is not a unyt object takes the zero-exception branch (one mechanism)
                         zq = (k1 == "zeroq" and not i2[2]) or (k2 == "zeroq" and not i1[2])
                         keybase = "divmod" if name == "divmod" else ("ufunc(zero-filled-quantity,non-unyt-operand)" if zq else None)
@@ -678,12 +729,13 @@ def drive_ufmatrix(J, payload):
                                 a1 = kinfo(ctx, k1, s1)
                                 a2 = kinfo(ctx, k2, s2)
                                 mode, why = pair_mode(fam, a1, a2)
-                                shp = J.case("ufunc", name, form, mode, b, ctx, cell, opclass(a1[1], a2[1]), tk, callstr,
+                                shp = J.case("ufunc", name, form, mode, b, ctx, cell + ctx.celltag(), opclass(a1[1], a2[1]), tk, callstr,
                                              eq_want=(name == "not_equal"), free_reason=why, keybase=keybase)
                                 if mode == "eq" and shp is not None and tuple(shp) != tuple(bshapes[(s1, s2)]):
                                     rec.note(f"eq-shape-not-broadcast:{name}")
         # single-operand forms: reduce / accumulate controls, reduce(initial=) and out=+where=
-        drive_unary_forms(J, name, ctxs, payload["dtypes"])
+        if payload.get("unary", True):
+            drive_unary_forms(J, name, ctxs, payload["dtypes"])
 
 
 def drive_unary_forms(J, name, ctxs, dtypes):
@@ -1028,7 +1080,7 @@ def drive_arrayfn(J, payload, only=None):
             continue
         sub = "setitem" if name.startswith("setitem/") else "arrayfn"
         for dt in payload["dtypes"]:
-            for kind in AF_KINDS:
+            for kind in payload.get("kinds", AF_KINDS):
                 if kinfo(J.twin, kind, xshp) is None:
                     continue
 
@@ -1045,7 +1097,7 @@ def drive_arrayfn(J, payload, only=None):
                     after_ok = None
                     if "overwrite" in flags and mode == "must-raise" and cX in ("q", "dl", "dlp", "ql", "qld") and dX is not None:
                         after_ok = (lambda ops, r, dX=dX: hasattr(ops[0], "units") and udim(ops[0].units) == dX)
-                    J.case(sub, name, "call", mode, build, ctx, (kind + xshp, dt), cls, (name, kind, dt),
+                    J.case(sub, name, "call", mode, build, ctx, (kind + xshp, dt) + ctx.celltag(), cls, (name, kind, dt),
                            f"{name} with X={kind}{SHAPES[xshp]} ({dt})", eq_want=False, after_ok=after_ok, free_reason=why, keyop=keyop)
 
 
@@ -1101,7 +1153,7 @@ def convert_ctx(J, ctx, dts, routes=None):
     rec = J.rec
     a, b = ctx.u["same"], ctx.u["diff"]
     dA, dB = ctx.d["same"], ctx.d["diff"]
-    cls = opclass(ctx.c["same"], ctx.c["diff"])
+    cls = samespell_class(ctx, opclass(ctx.c["same"], ctx.c["diff"]))
     for dt in dts:
         for route in (routes or ROUTES):
             b_ = conv_builder(route, dt)
@@ -1203,6 +1255,128 @@ def drive_registry(J, payload):
     J.rec.sample({"registry-cases": payload["cases"][:4]})
 
 
+# ------------------------------------------------------------------ unit objects that outlive an edit of their registry
+# A Unit object is a snapshot: it keeps the scale and dimension its symbol had when it was built.  Operands of the SAME spelling in the SAME
+# registry object built on either side of an edit that changed the symbol's dimension (or in two registries that define the symbol
+# differently) are operands of different dimension like any other pair.
+STALE_SYM = "blip"
+STALE_SI = {"length": "m", "time": "s", "mass": "kg", "energy": "J", "temperature": "K", "velocity": "m/s", "pressure": "Pa", "angle": "rad",
+            "frequency": "Hz", "current_mks": "A", "area": "m**2"}     # the unit of scale 1 of each dimension (modify(quantity) re-bases to mks)
+assert all(uexpr.evaluate(v, _RES)[0] == 1.0 and uexpr.evaluate(v, _RES)[1] == dims.D(REG_DIMS[k][0]) for k, v in STALE_SI.items())
+STALE_EDITS = ["modify-q", "modify-q-value", "remove-add", "remove-add-value", "re-add", "two-registries", "two-registries-value"]
+STALE_FORMS = {"sym": ("{s}", lambda d: d), "sym/s": ("{s}/s", lambda d: dims.div(d, dims.D("T"))), "sym**2": ("{s}**2", lambda d: dims.power(d, 2)),
+               "g*sym": ("g*{s}", lambda d: dims.mul(dims.D("M"), d)), "1/sym": ("1/{s}", lambda d: dims.power(d, -1)),
+               "sqrt(sym)*K": ("{s}**0.5*K", lambda d: dims.mul(dims.power(d, "1/2"), dims.D("K")))}
+STALE_FORMS_Q = ["sym", "sym/s", "sym**2", "g*sym"]
+STALE_DERIVE = ["constructed", "arithmetic", "view"]
+STALE_ORDERS = ["old-new", "new-old"]
+STALE_VALUES = [1.0, 2.0, 0.5, 1000.0, 3.0856775814913674e16]
+STALE_KPAIRS = [("same", "diff"), ("diff", "same"), ("same", "zeroq"), ("zeroq", "same"), ("same", "qlist-diff"), ("qlist-diff", "same"),
+                ("same", "qlist-mixed"), ("qlist-mixed", "same"), ("diff", "qlist"), ("qlist", "diff"), ("same", "same")]
+STALE_UFUNCS_Q = ["add", "maximum", "remainder", "arctan2", "less", "equal", "not_equal"]    # quick tier: list / zero-filled operands of the pair
+STALE_AF_KINDS = ["same", "diff", "zeroq", "qlist-diff", "qlist-mixed"]
+STALE_TEMPLATES_Q = REG_TEMPLATES - {"unyt_array([Pq,X0],uA)"} | {
+    "concatenate/[P,P2,X]", "concatenate/out=", "vstack/[P,X]", "hstack/[X,P]", "dstack/[P,X]", "column_stack/[P,X]", "stack/[P,X]", "block/[P,X]",
+    "where/(c,X,P)", "where/(c,P,X0)", "select/default=X0", "select/[P,P2,X]", "clip/(P,X,hi)", "clip/(P,lo,X0)", "clip/method", "clip/ufunc",
+    "intersect1d/(P,X)", "setdiff1d/(X,P)", "unyt_array([X0,Pq])", "unyt_array([Pq,hi,X0])", "array_equal/(X,P)", "array_equiv/(P,X)",
+    "put_along_axis/X", "copyto/full", "setitem/ellipsis=X", "setitem/2d=X2d", "setitem/0d=X0", "geomspace/(Pq,X0)", "interp/(Pq,xp=X,fp)",
+    "unyt.uconcatenate/[P,X]", "unyt.uunion1d/[P,X]", "searchsorted/(P,X0)", "isin/(X,P)", "insert/X", "linspace/(P,X)"}
+assert STALE_TEMPLATES_Q <= {t[0] for t in TEMPLATES}
+OBJ_ROUTES = ["to(Unit)", "q.in_units", "Unit.get_conversion_factor", "to(quantity)", "Unit+Unit", "Unit-Unit"]
+
+
+def stale_batches(tier):
+    forms = STALE_FORMS_Q if tier == "quick" else list(STALE_FORMS)
+    reps = 1 if tier == "quick" else 6
+    return [(e, f, dv, rep) for e in STALE_EDITS for f in forms for dv in STALE_DERIVE for rep in range(reps)]
+
+
+def _stale_derive(un, how, pre_one, U):
+    """-> fn(values) -> quantity carrying the snapshot unit, by one of three ordinary routes"""
+    if how == "constructed":       # built now from the Unit object that was taken before the edit
+        return lambda v: (un.unyt_quantity if np.ndim(v) == 0 else un.unyt_array)(v, U)
+    if how == "arithmetic":        # arithmetic on a quantity that was built (from the string) before the edit
+        return lambda v: np.asarray(v) * pre_one
+    if how == "view":              # an item / row view of an array labelled before the edit
+        return lambda v: un.unyt_array(np.stack([np.asarray(v), np.asarray(v)]), U)[0]
+    raise KeyError(how)
+
+
+def drive_stale(J, bid, payload):
+    un, rec = J.unyt, J.rec
+    from unyt.unit_registry import UnitRegistry
+    import unyt.dimensions as ud
+    r = core.rng(payload["seed"], bid)
+    tier = payload["tier"]
+    names_ = sorted(STALE_SI) if tier != "quick" else ["length", "time", "mass", "energy", "temperature", "velocity"]
+    templates = STALE_TEMPLATES_Q if tier == "quick" else {t[0] for t in TEMPLATES if "observe" not in t[3]} - {"unyt_array([Pq,X0],uA)"}
+    shape_pairs = [("1", "1"), ("0", "0"), ("1", "0")] if tier == "quick" else [("1", "1"), ("0", "0"), ("1", "0"), ("0", "1"), ("2", "1")]
+    for (edit, form, derive, rep) in payload["cases"]:
+        fstr, fdim = STALE_FORMS[form]
+        while True:
+            X, Y = r.sample(names_, 2)
+            DX, DY = fdim(dims.D(REG_DIMS[X][0])), fdim(dims.D(REG_DIMS[Y][0]))
+            if ZERO not in (DX, DY) and DX != DY and frozenset((DX, DY)) not in EM_PAIRS:
+                break
+        v0 = r.choice(STALE_VALUES)
+        v1 = r.choice([v for v in STALE_VALUES if v != v0]) if edit.endswith("-value") else v0
+        fs = fstr.format(s=STALE_SYM)
+        siX, siY = fstr.format(s="(" + STALE_SI[X] + ")"), fstr.format(s="(" + STALE_SI[Y] + ")")
+        reg = UnitRegistry()
+        reg.add(STALE_SYM, v0, getattr(ud, X))
+        old_one = un.unyt_quantity(1.0, fs, registry=reg)       # labelled by string while the symbol is an X
+        U_old = old_one.units
+        mk_old = _stale_derive(un, derive, old_one, U_old)
+        tag0 = f"{fs}[{X}>{Y}]{edit}/{derive}"
+        J.scopes = ()
+        warm = Ctx.custom(un, {"same": U_old, "samedim": un.Unit(siX, registry=reg), "diff": un.Unit(siX, registry=reg)},
+                          {"same": fs, "samedim": siX, "diff": siX}, {"same": DX, "samedim": DX, "diff": DX}, tag0 + "/before")
+        warm.mkq = {"same": mk_old}
+        drive_ufdims(J, {"pairs": [warm], "tier": "quick", "forms": ["call", "operator"]})     # controls: the spelling is commensurable with X units
+        regB = reg
+        if edit.startswith("modify-q"):
+            reg.modify(STALE_SYM, un.unyt_quantity(v1, STALE_SI[Y]))
+        elif edit.startswith("remove-add"):
+            reg.remove(STALE_SYM)
+            reg.add(STALE_SYM, v1, getattr(ud, Y))
+        elif edit == "re-add":
+            reg.add(STALE_SYM, v1, getattr(ud, Y))
+        else:
+            regB = UnitRegistry()
+            regB.add(STALE_SYM, v1, getattr(ud, Y))
+        new_one = un.unyt_quantity(1.0, fs, registry=regB)      # the same string, now a Y
+        U_new = new_one.units
+        rec.count("stale-cases")
+        if U_old.registry is U_new.registry:
+            rec.count("stale-pairs-sharing-one-registry-object")
+        for order in STALE_ORDERS:
+            if order == "old-new":
+                ctx = Ctx.custom(un, {"same": U_old, "samedim": un.Unit(siX, registry=reg), "diff": U_new},
+                                 {"same": fs, "samedim": siX, "diff": fs}, {"same": DX, "samedim": DX, "diff": DY}, tag0 + "/old|new")
+                ctx.samespell = True
+                ctx.cellkey = f"snapshot:{edit}|{form}|{derive}|{order}"
+                ctx.mkq = {"same": mk_old}
+                # a string target is read in the source's registry: after an in-place edit it means the new definition
+                routes = ROUTES if regB is reg else OBJ_ROUTES
+            else:
+                ctx = Ctx.custom(un, {"same": U_new, "samedim": un.Unit(siY, registry=regB), "diff": U_old},
+                                 {"same": fs, "samedim": siY, "diff": fs}, {"same": DY, "samedim": DY, "diff": DX}, tag0 + "/new|old")
+                ctx.samespell = True
+                ctx.cellkey = f"snapshot:{edit}|{form}|{derive}|{order}"
+                ctx.mkq = {"diff": mk_old}
+                routes = OBJ_ROUTES
+            J.scopes = ("stale", "stale/edit:" + edit, "stale/unit:" + form, "stale/operand:" + derive, "stale/order:" + order)
+            convert_ctx(J, ctx, ["f8"], routes)
+            drive_ufmatrix(J, {"ufuncs": ARITH + ORDER + EQ, "ctxs": [ctx], "dtypes": ["f8"], "tier": "quick", "kpairs": STALE_KPAIRS[:2],
+                               "shape_pairs": shape_pairs})
+            ufs = STALE_UFUNCS_Q if tier == "quick" else ARITH + ORDER + EQ
+            drive_ufmatrix(J, {"ufuncs": ufs, "ctxs": [ctx], "dtypes": ["f8"], "tier": "quick", "kpairs": STALE_KPAIRS[2:],
+                               "shape_pairs": shape_pairs[:2] + [("0", "1")], "unary": False})
+            drive_arrayfn(J, {"ctxs": [ctx], "dtypes": ["f8"], "kinds": STALE_AF_KINDS}, only=templates)
+            J.scopes = ()
+    rec.sample({"stale-cases": [list(c) for c in payload["cases"][:3]]})
+
+
 def drive_offsets(J, payload):
     """offset scales (degC, degF, lat, lon) take special branches before the dimension test: drive them against other dimensions"""
     un = J.unyt
@@ -1264,6 +1438,8 @@ def worker(batch, rec):
         drive_registry(J, payload)
     elif kind == "random":
         drive_random(J, bid, payload)
+    elif kind == "stale":
+        drive_stale(J, bid, payload)
     else:
         raise KeyError(kind)
     def tname(k):
@@ -1329,8 +1505,17 @@ def extra(tier, seed, results):
     sub = {k: counters.get("judged:" + k, 0) for k in ("ufunc", "arrayfn", "setitem", "convert", "unitop")}
     tap_total = sum(v for k, v in counters.items() if k.startswith("tap:ufunc:"))
     tapfn_total = sum(v for k, v in counters.items() if k.startswith("tap:fn:"))
+    forms_ = STALE_FORMS_Q if tier == "quick" else list(STALE_FORMS)
+    stale_scopes = (["stale"] + ["stale/edit:" + e for e in STALE_EDITS] + ["stale/unit:" + f for f in forms_]
+                    + ["stale/operand:" + d for d in STALE_DERIVE] + ["stale/order:" + o for o in STALE_ORDERS])
+    stale = {k: counters.get("judged-scope:" + k, 0) for k in stale_scopes}
+    stale_eq = {k: counters.get("eq-constant-scope:" + k, 0) for k in stale_scopes}
     out = {
         "sub_monitor_judged": sub,
+        "stale_unit_monitor_judged": stale,
+        "stale_unit_monitor_eq_constant_answers": stale_eq,
+        "stale_unit_cases": counters.get("stale-cases", 0),
+        "stale_unit_pairs_sharing_one_registry_object": counters.get("stale-pairs-sharing-one-registry-object", 0),
         "controls_returned": {k.split(":", 1)[1]: v for k, v in counters.items() if k.startswith("control-returned:")},
         "tap_ufunc_dispatches": tap_total,
         "tap_handled_function_dispatches": tapfn_total,
@@ -1350,6 +1535,14 @@ def extra(tier, seed, results):
     for k, v in sub.items():
         if v == 0:
             raise core.Inconclusive(f"sub-monitor-{k}-evaluated-0-times")
+    for k, v in stale.items():
+        if v == 0:
+            raise core.Inconclusive(f"sub-monitor-{k}-evaluated-0-times")
+    for k, v in stale_eq.items():
+        if v == 0:
+            raise core.Inconclusive(f"eq-exception-never-observed-in-{k}")
+    if counters.get("stale-pairs-sharing-one-registry-object", 0) == 0:
+        raise core.Inconclusive("no-stale-pair-shared-one-registry-object")
     if tap_total == 0 or tapfn_total == 0:
         raise core.Inconclusive("passive-tap-saw-no-dispatch")
     if counters.get("eq-constant-answer", 0) == 0:
